@@ -411,3 +411,112 @@ def run(ctx) -> None:  # noqa: F811
     n = memo2.check(ctx, modules={"abtem.core.energy"})
     ctx.ok("R-CACHEKEY", "scan", "abtem/", f"{n} cache stores found in the anchored modules; positive control matched")
     _inner_run(ctx)
+
+
+# ---- added after the seeded change C24-r2seed7: arithmetic width of the energy parameter
+_inner_run_c24b = run
+
+
+def run(ctx) -> None:  # noqa: F811
+    import ast as _ast
+
+    from ..cfg import DataFlow as _DF
+    from ..model import call_name as _cn, dotted as _dotted, module_constants as _consts, norm_text as _nt, \
+        walk_no_nested as _walk
+
+    ctx.rule("R-WIDTH", "numeric-kind abstract interpretation of the functions of abtem/core/energy.py that take an "
+             "`energy` parameter (kinds: F = certainly float64 / Python float, P = the caller's own numeric type, I = "
+             "Python int literal; F absorbs in + - *, true division and sqrt/float() give F, P**F is F): no product "
+             "P*P and no power P**k (k >= 2) is evaluated in kind P — such a term is quadratic in the energy and wraps "
+             "silently for fixed-width NumPy integers (np.int32 overflows from 46341 eV), so the closed form would "
+             "hold for Python numbers only, not 'for every positive energy'")
+    repo = ctx.repo
+    mod = repo.modules["abtem.core.energy"]
+    uconst = _consts(repo.modules["abtem.core.units"])
+    funcs = [f for f in mod.functions.values() if "energy" in f.positional_params]
+    ctx.require(len(funcs) >= 4, f"R-WIDTH: only {len(funcs)} functions with an energy parameter found")
+
+    def float_returning(fn) -> bool:
+        rets = [r for r in _walk(fn.node) if isinstance(r, _ast.Return) and r.value is not None]
+        return bool(rets) and all(isinstance(r.value, _ast.Call) and _cn(r.value) == "float" for r in rets)
+
+    for f in funcs:
+        df = _DF(f.node)
+        bad: list = []
+
+        def kind(e, at, depth=0) -> str:
+            if depth > 30:
+                return "U"
+            if isinstance(e, _ast.Constant):
+                return "F" if isinstance(e.value, float) else "I" if isinstance(e.value, int) and not isinstance(
+                    e.value, bool) else "U"
+            if isinstance(e, _ast.Name):
+                if e.id == "energy" and all(d.kind == "param" for d in df.reaching(at, "energy")):
+                    return "P"
+                d = df.single_def(at, e.id)
+                if d is not None and d.kind == "assign" and d.value is not None:
+                    return kind(d.value, d.node, depth + 1)
+                return "U"
+            if isinstance(e, _ast.Attribute):
+                d = _dotted(e) or ""
+                if d.startswith("units.") and isinstance(uconst.get(d[6:]), float):
+                    return "F"
+                if e.attr in ("pi", "e") and isinstance(e.value, _ast.Name):
+                    return "F"
+                return "U"
+            if isinstance(e, _ast.UnaryOp):
+                return kind(e.operand, at, depth + 1)
+            if isinstance(e, _ast.BinOp):
+                a, b = kind(e.left, at, depth + 1), kind(e.right, at, depth + 1)
+                if isinstance(e.op, _ast.Div):
+                    return "F"
+                if isinstance(e.op, _ast.Pow):
+                    if a == "F" or (a in ("P", "I") and b == "F"):
+                        return "F"
+                    if a == "P":
+                        k = e.right.value if isinstance(e.right, _ast.Constant) else None
+                        if b in ("I", "P") and not (isinstance(k, int) and k < 2):
+                            bad.append(e)
+                        return "P"
+                    return a
+                if isinstance(e.op, (_ast.Add, _ast.Sub, _ast.Mult)):
+                    if "F" in (a, b):
+                        return "F"
+                    if "U" in (a, b):
+                        return "U"
+                    if a == "P" and b == "P" and isinstance(e.op, _ast.Mult):
+                        bad.append(e)
+                    return "P" if "P" in (a, b) else "I"
+                return "U"
+            if isinstance(e, _ast.Call):
+                name = (_cn(e) or "").split(".")[-1]
+                for a_ in e.args:
+                    kind(a_, at, depth + 1)  # visit the arguments for P*P terms
+                if name in ("float", "sqrt", "float64", "exp", "log", "hypot"):
+                    return "F"
+                if name in ("abs", "asarray", "array", "int", "square"):
+                    k = kind(e.args[0], at, depth + 1) if e.args else "U"
+                    if name == "square" and k == "P":
+                        bad.append(e)
+                    return k
+                tgt = mod.functions.get(name)
+                if tgt is not None and float_returning(tgt):
+                    return "F"
+                return "U"
+            return "U"
+
+        n_expr = 0
+        for node in df.cfg.nodes:
+            st = node.ast
+            if st is None or node.kind != "stmt":
+                continue
+            v = st.value if isinstance(st, (_ast.Return, _ast.Assign, _ast.AugAssign, _ast.Expr)) else None
+            if v is not None:
+                n_expr += 1
+                kind(v, node.idx)
+        ctx.check(not bad, "R-WIDTH", f"{f.qualname}:energy arithmetic", f.loc(bad[0]) if bad else f.where,
+                  f"{n_expr} expression(s): no product or power of the energy evaluated in the caller's own numeric type",
+                  f"`{_nt(bad[0])[:70]}` is evaluated in the numeric type of the `energy` argument (no float64 operand): for "
+                  "a fixed-width integer energy (np.int32 >= 46341 eV) it wraps silently and the result is not "
+                  "h c / sqrt(E (E + 2 m c^2))" if bad else "", key_detail="width")
+    _inner_run_c24b(ctx)
